@@ -374,15 +374,20 @@ where
         let mut h = DefaultHasher::new();
         value.hash(&mut h);
         value.get_data_type().hash(&mut h);
-        let hv = h.finish();
+        let mut hv = h.finish();
 
-        match self.cache.get(&hv) {
-            Some(addr) => Ok(*addr),
-            None => {
-                let addr = self.data.len();
-                self.data.push(value);
-                self.cache.insert(hv, addr);
-                Ok(addr)
+        // The cache is keyed by a 64-bit hash only: confirm a hit by comparing the stored value,
+        // and probe the next key when a different value already occupies this one.
+        loop {
+            match self.cache.get(&hv) {
+                Some(addr) if self.data.get(*addr) == Some(&value) => return Ok(*addr),
+                Some(_) => hv = hv.wrapping_add(1),
+                None => {
+                    let addr = self.data.len();
+                    self.data.push(value);
+                    self.cache.insert(hv, addr);
+                    return Ok(addr);
+                }
             }
         }
     }
